@@ -6,6 +6,8 @@ ENGINES = [
          kind_free_text='program model (classes, MRO, imports, alias families) + path-sensitive symbolic evaluator producing provenance terms, effects and guards; AC pattern matching with audio-parameter roles'),
     dict(name='E8-path formulas', path='sa/semantic.py sa/termeval.py', serves_properties=['C07', 'C11', 'C13', 'C16'],
          kind_free_text='per-path obligations "path condition => expression = specified function" decided by evaluating the extracted condition and terms (never auditok code) on finite grids of small inputs; helpers, property getters/setters and conditional expressions inlined first; unevaluable terms give INCONCLUSIVE'),
+    dict(name='E9-typestate', path='sa/typestate.py sa/fuse.py', serves_properties=['C19', 'C12'],
+         kind_free_text='finite abstract interpretation of the recorder class (fields over a small domain of lists/bytes/sources/method pointers), reachable abstract states explored to a fixpoint under read/rewind/data; loop fusion of helper generators'),
     dict(name='E5-nullness', path='sa/nullness.py', serves_properties=['C10', 'C18'], kind_free_text='nullness of read() results with interprocedural dereference/return summaries'),
     dict(name='E6-effects', path='sa/effects.py', serves_properties=['C17', 'C19', 'C20'], kind_free_text='transitive write-effect analysis over resolved callees'),
     dict(name='E3-fd traces', path='sa/props/c12.py sa/props/c13.py sa/props/c14.py (on sa/symex.py)', serves_properties=['C12', 'C13', 'C14'], kind_free_text='path enumeration of worker loops and hooks with messages abstracted to NONE/STOP/DATA; trace predicates over ordered effects'),
@@ -89,8 +91,8 @@ CHECKS += [
          technique='static analysis: finite-domain path enumeration of the worker loops (message in {NONE, STOP, DATA}), inbox discipline census, call-order rules, class-table exhaustiveness',
          text='Decides the ten protocol facts F1-F10 (unbounded own inbox, timeout on every blocking get, loop cases, notify-all once per detection then STOP, stop=send then join, no self-join, every worker has the hook). Schedules are not explored.',
          note=WORK_NOTE),
-    dict(id='C19', engine='E4-provenance + E6-effects', level='other', design_ref='DESIGN.md 4.19',
-         technique='static analysis: provenance of the recorder cache/rewind paths, reset-completeness of wrapper state (fields written on the read path vs re-initialised by rewind), attribute-hiding guards',
+    dict(id='C19', engine='E9-typestate + E4-provenance + E6-effects', level='other', design_ref='DESIGN.md 4.19, 10.5e',
+         technique='static analysis: typestate of the recorder class by finite abstract interpretation (reachable abstract states under read/rewind/data explored to a fixpoint, clauses checked on every state); provenance of the recorder cache/rewind paths, reset-completeness of wrapper state (fields written on the read path vs re-initialised by rewind), attribute-hiding guards',
          text='Decides cache-once, the first/later rewind paths, data-before-rewind guard, reset-completeness and inward propagation of rewind in every wrapper, and that non-recording readers hide data/rewind. Replay equality over histories is argued, not computed.',
          note=STRUCT_NOTE),
  ]
